@@ -229,7 +229,7 @@ def _extract_tree_helper(f: FuncInfo, bias: int, want_yield_on: bool):
             return False
         if len(ys) != 1:
             raise Outside("several yields in the loop")
-        for st in sorted((n for n in ast.walk(lp) if isinstance(n, ast.Assign)), key=lambda n: (n.lineno, n.col_offset)):
+        for st in sorted((n for n in ast.walk(lp) if isinstance(n, ast.Assign)), key=lambda n: n._ord):
             if not isinstance(st.targets[0], ast.Name):
                 raise Outside("assignment %s" % unparse(st))
             v = st.value
@@ -323,12 +323,17 @@ def at_impl(chk: Check, rule: str, fname: str = "_nodes_at_interval_tree_impl") 
                     and attr_path(n.value.func) in (("bounds_getter",), ("interval_getter",)):
                 bound_ok = True
         ys = [y for y in ast.walk(lp) if isinstance(y, ast.Yield)]
-        y_ok = len(ys) == 1 and attr_path(ys[0].value) == (lp.target.id, "data")
-        # the yield is under the membership test
+        node_names = {n.targets[0].id for n in ast.walk(lp) if isinstance(n, ast.Assign)
+                      and isinstance(n.targets[0], ast.Name) and attr_path(n.value) == (lp.target.id, "data")}
+        y_ok = len(ys) == 1 and (attr_path(ys[0].value) == (lp.target.id, "data") or
+                                 (isinstance(ys[0].value, ast.Name) and ys[0].value.id in node_names))
+        # the yield is reached exactly on the outcome "member of the range" (guards in any spelling)
         under = False
-        for n in ast.walk(lp):
-            if isinstance(n, ast.If) and n.test is t and any(y in list(ast.walk(s)) for s in n.body for y in ys):
-                under = True
+        if len(ys) == 1:
+            from ..cfg import CFG as _CFG
+            flow = _CFG(f.node)
+            facts = flow.facts_at(flow.node_of(ys[0]))
+            under = any(tt is t and vv for tt, vv in facts)
         chk.ob(rule, key + ":yields-node-under-test", bound_ok and y_ok and under, f.loc(lp),
                "'at' must yield the interval's node exactly when the membership test holds", 2)
 
